@@ -100,7 +100,7 @@ def run(mod, prop, tier, seed, no_build):
             build_ok = False
             broken.append({'kind': 'lean-build', 'detail': out[-3000:]})
     # 3. audit
-    hits = C.grep_forbidden()
+    hits = C.grep_forbidden(modules + ['Driver.' + prop])
     if hits:
         print('forbidden tokens in Lean sources:', hits); return 2
     names, axioms, problems = ([], {}, [])
